@@ -4,6 +4,7 @@
 pub mod bigmodel;
 pub mod engine;
 pub mod gens;
+pub mod ggmx;
 pub mod layout;
 pub mod pp;
 pub mod props;
